@@ -91,6 +91,11 @@ impl<R: BufRead> LiteralDataReader<R> {
     }
 
     fn fill_inner(&mut self) -> io::Result<()> {
+        // A previous call failed: keep returning an error, `is_done` would panic.
+        if matches!(self, Self::Error) {
+            return Err(io::Error::other("LiteralDataReader errored"));
+        }
+
         if self.is_done() {
             return Ok(());
         }
